@@ -767,6 +767,9 @@ func parseField(v reflect.Value, bytes []byte, initOffset int, params fieldParam
 	}
 	if params.explicit {
 		expectedClass := ClassContextSpecific
+		if params.private {
+			expectedClass = ClassPrivate
+		}
 		if params.application {
 			expectedClass = ClassApplication
 		}
